@@ -1,16 +1,131 @@
 /-
 C03 — Any text can be passed as an argument; encoded arguments are URL-path safe.
-Property theorems only; helper lemmas live in LiquerProofs/Lemmas/Token*.lean.
+Property theorems only; helper lemmas live in LiquerProofs/Lemmas/{Text,Quote,Token,TokenSafe}.lean.
 -/
 import LiquerProofs.Inst.EscapeTable
+import LiquerProofs.Lemmas.TokenSafe
 
 namespace Liquer.C03
 
 theorem inst_tableOK : tableOK Gen.escapeTable = true := Inst.escapeTable_ok
 
+theorem inst_sepCovered : sepCovered Gen.escapeTable = true := Inst.escapeTable_sepCovered
+
 theorem inst_quoteSafe : ∀ n : Fin 128, quoteSafe (Char.ofNat n.val) = Gen.quoteSafeProbe.contains (Char.ofNat n.val) :=
   Inst.quoteSafe_probe
 
+/-! ### the byte decoder of the driver is admissible -/
+
+/-- core's UTF-8 decoder inverts UTF-8 encoding (the only thing the theorems need of `dec`). -/
+theorem decUtf8_ok : DecOK decUtf8 := Liquer.decUtf8_ok
+
+/-! ### round trip of a single token: `decode_token(encode_token(s)) == s` for every string -/
+
+theorem decodeToken_encodeToken (tbl : EscTable) (dec : List UInt8 → List Char)
+    (h : tableOK tbl = true) (hd : DecOK dec) (s : List Char) :
+    decodeToken tbl dec (encodeToken tbl s) = s :=
+  Liquer.decodeToken_encodeToken tbl dec h hd s
+
+-- non-vacuity: the hypotheses hold for the real table and decoder, and the round trip is exercised
+-- on a string with `~`, `https://`, `%7E`, separators and non-ASCII characters.
+example : tableOK Gen.escapeTable = true ∧ DecOK decUtf8 := ⟨inst_tableOK, decUtf8_ok⟩
+/-- info: ("~~~Hx.org~Ia~_b~.c%257E%C3%A9%E2%82%AC", "~https://x.org/a-b c%7Eé€") -/
+#guard_msgs in
+#eval
+  let e := encodeToken Gen.escapeTable "~https://x.org/a-b c%7Eé€".toList
+  (String.ofList e, String.ofList (decodeToken Gen.escapeTable decUtf8 e))
+
+theorem real_roundtrip (s : List Char) :
+    decodeToken Gen.escapeTable decUtf8 (encodeToken Gen.escapeTable s) = s :=
+  decodeToken_encodeToken _ _ inst_tableOK decUtf8_ok s
+
+/-! ### URL-path safety of the encoded token -/
+
+/-- every character of an encoded token is an ASCII letter, digit, `_`, `.`, `~` or `%`;
+in particular there is no bare `/`, `-` or space. (`tableOK` is not needed for this part.) -/
+theorem encodeToken_safe (tbl : EscTable) (_h : tableOK tbl = true) (hs : sepCovered tbl = true)
+    (s : List Char) : ∀ c ∈ encodeToken tbl s, tokSafe c = true :=
+  encodeToken_safe' tbl hs s
+
+theorem encodeToken_no_separator (tbl : EscTable) (h : tableOK tbl = true)
+    (hs : sepCovered tbl = true) (s : List Char) :
+    '/' ∉ encodeToken tbl s ∧ '-' ∉ encodeToken tbl s ∧ ' ' ∉ encodeToken tbl s := by
+  refine ⟨fun hm => ?_, fun hm => ?_, fun hm => ?_⟩ <;>
+    (have := encodeToken_safe tbl h hs s _ hm; revert this; decide)
+
+/-- every `%` of an encoded token starts a `%XY` escape with two upper-case hexadecimal digits:
+the token is a concatenation of blocks, each a bare safe character other than `%` or such an
+escape. -/
+theorem encodeToken_blocks (tbl : EscTable) (_h : tableOK tbl = true) (hs : sepCovered tbl = true)
+    (s : List Char) :
+    ∃ blocks : List (List Char), encodeToken tbl s = blocks.flatMap id ∧
+      ∀ b ∈ blocks, (∃ c, b = [c] ∧ tokSafe c = true ∧ c ≠ '%') ∨
+        (∃ x y, x < 16 ∧ y < 16 ∧ b = ['%', hexDigitUpper x, hexDigitUpper y]) :=
+  encodeToken_blocks' tbl hs s
+
+-- non-vacuity: hypotheses hold for the real table; a string full of separators is encoded safely
+example : tableOK Gen.escapeTable = true ∧ sepCovered Gen.escapeTable = true :=
+  ⟨inst_tableOK, inst_sepCovered⟩
+/-- info: ("a~Ib~_c~.d%25%C3%A9", true) -/
+#guard_msgs in
+#eval
+  let e := encodeToken Gen.escapeTable "a/b-c d%é".toList
+  (String.ofList e, e.all tokSafe)
+-- and `tokSafe` is a real restriction
+example : tokSafe '/' = false ∧ tokSafe '-' = false ∧ tokSafe ' ' = false ∧ tokSafe '?' = false ∧
+    tokSafe '#' = false ∧ tokSafe '&' = false := by decide
+
+theorem real_safe (s : List Char) : ∀ c ∈ encodeToken Gen.escapeTable s, tokSafe c = true :=
+  encodeToken_safe _ inst_tableOK inst_sepCovered s
+
+theorem real_no_separator (s : List Char) :
+    '/' ∉ encodeToken Gen.escapeTable s ∧ '-' ∉ encodeToken Gen.escapeTable s ∧
+      ' ' ∉ encodeToken Gen.escapeTable s :=
+  encodeToken_no_separator _ inst_tableOK inst_sepCovered s
+
+theorem real_blocks (s : List Char) :
+    ∃ blocks : List (List Char), encodeToken Gen.escapeTable s = blocks.flatMap id ∧
+      ∀ b ∈ blocks, (∃ c, b = [c] ∧ tokSafe c = true ∧ c ≠ '%') ∨
+        (∃ x y, x < 16 ∧ y < 16 ∧ b = ['%', hexDigitUpper x, hexDigitUpper y]) :=
+  encodeToken_blocks _ inst_tableOK inst_sepCovered s
+
+/-! ### list-of-lists form: `decode(encode(ql)) == ql` -/
+
+/-- The round trip of a whole query, for every list of commands each of which is non-empty and
+starts with a non-empty token (`decode` drops the other commands, see the examples below). -/
+theorem decodeLL_encodeLL (tbl : EscTable) (dec : List UInt8 → List Char)
+    (h : tableOK tbl = true) (hs : sepCovered tbl = true) (hd : DecOK dec)
+    (ql : List (List (List Char)))
+    (hne : ∀ cmd ∈ ql, ∃ t ts, cmd = t :: ts ∧ t ≠ []) :
+    decodeLL tbl dec (encodeLL tbl ql) = ql :=
+  decodeLL_encodeLL' tbl dec h hs hd ql hne
+
+-- non-vacuity: a query satisfying `hne` with empty non-first tokens, separators and non-ASCII text
+example : ∀ cmd ∈ [["a~b".toList, [], "https://x/y-z w".toList, "é%7E".toList], ["c".toList, []]],
+    ∃ t ts, cmd = t :: ts ∧ t ≠ [] := by
+  intro cmd hcmd
+  simp only [List.mem_cons, List.not_mem_nil, or_false] at hcmd
+  rcases hcmd with rfl | rfl
+  · exact ⟨_, _, rfl, by decide⟩
+  · exact ⟨_, _, rfl, by decide⟩
+/-- info: ("a~~b--~Hx~Iy~_z~.w-%C3%A9%257E/c-", true) -/
+#guard_msgs in
+#eval
+  let ql := [["a~b".toList, [], "https://x/y-z w".toList, "é%7E".toList], ["c".toList, []]]
+  let e := encodeLL Gen.escapeTable ql
+  (String.ofList e, decodeLL Gen.escapeTable decUtf8 e == ql)
+-- the precondition is needed: an empty command or a command starting with "" is dropped
+/-- info: (false, false, true) -/
+#guard_msgs in
+#eval
+  let rt := fun ql => decodeLL Gen.escapeTable decUtf8 (encodeLL Gen.escapeTable ql) == ql
+  (rt [["a".toList], [], ["b".toList]], rt [[[], "x".toList]], rt [])
+
+theorem real_roundtripLL (ql : List (List (List Char)))
+    (hne : ∀ cmd ∈ ql, ∃ t ts, cmd = t :: ts ∧ t ≠ []) :
+    decodeLL Gen.escapeTable decUtf8 (encodeLL Gen.escapeTable ql) = ql :=
+  decodeLL_encodeLL _ _ inst_tableOK inst_sepCovered decUtf8_ok ql hne
+
 end Liquer.C03
 
--- OBLIGATIONS: Liquer.C03.inst_tableOK Liquer.C03.inst_quoteSafe
+-- OBLIGATIONS: Liquer.C03.inst_tableOK Liquer.C03.inst_sepCovered Liquer.C03.inst_quoteSafe Liquer.C03.decUtf8_ok Liquer.C03.decodeToken_encodeToken Liquer.C03.real_roundtrip Liquer.C03.encodeToken_safe Liquer.C03.encodeToken_no_separator Liquer.C03.encodeToken_blocks Liquer.C03.real_safe Liquer.C03.real_no_separator Liquer.C03.real_blocks Liquer.C03.decodeLL_encodeLL Liquer.C03.real_roundtripLL
